@@ -30,6 +30,7 @@ from harness.translate import status as tr
 THEOREMS = [
     "claim_only_from_available", "second_claim_refused", "claim_preceded_by_release", "claim_claim_has_release",
     "only_owner_moves", "running_exits", "bodyInv_step", "bodyInv_init", "no_double_body",
+    "reregistration_changes_nothing", "registration_creates_registered",
 ]
 
 SQL_PATCH = [
